@@ -189,7 +189,9 @@ func TestC15(t *testing.T) {
 	defer h.Finish()
 	env := h.Env
 
-	enumerateFaults := func(sub string, c faultCase) *fail {
+	var enumerateFaultsInto func(sub string, c faultCase, struck *faultCase) *fail
+	enumerateFaults := func(sub string, c faultCase) *fail { return enumerateFaultsInto(sub, c, nil) }
+	enumerateFaultsInto = func(sub string, c faultCase, struck *faultCase) *fail {
 		clean := c
 		clean.FaultAt = 0
 		st := &faultStats{}
@@ -236,6 +238,9 @@ func TestC15(t *testing.T) {
 						continue
 					}
 					h.Violation(sub, f.Sig, f.Msg, fc)
+					if struck != nil {
+						*struck = fc
+					}
 					return f
 				}
 			}
@@ -281,17 +286,25 @@ func TestC15(t *testing.T) {
 			}
 		}
 	}
+	// (the replay file must carry the fault that struck, not just the session:
+	// it is written again after rapid has recorded its own, shrunk, case)
+	var preciseF *fail
+	var preciseC faultCase
 	rapidCases(h, "faults", env.PerShard(env.Pick(3000, 48000)), genFaultSession, func(c faultCase) *fail {
 		if c.FaultAt != 0 {
 			// replay of a single fault
 			return runFaultCase(c, nil)
 		}
-		f := enumerateFaults("faults", c)
+		var struck faultCase
+		f := enumerateFaultsInto("faults", c, &struck)
 		if f != nil {
-			// recorded already with the precise fault index; make rapid stop here
+			preciseF, preciseC = f, struck
 			return &fail{Sig: f.Sig, Msg: f.Msg}
 		}
 		return nil
 	})
+	if preciseF != nil && !strings.HasPrefix(preciseF.Sig, "harness-") {
+		h.Violation("faults", preciseF.Sig, preciseF.Msg, preciseC)
+	}
 	_ = fmt.Sprint
 }
